@@ -110,10 +110,8 @@ Proof. unfold set_not_queued. destruct (negb _); [intros H; inversion H; auto|].
 Lemma len_set_snubbed v c h h' : set_snubbed v c h = Ok h' -> length (h_qs h') = length (h_qs h) /\ length (h_ents h') = length (h_ents h).
 Proof. unfold set_snubbed. destruct (cs_s _); [intros H; inversion H; auto|]. destruct (cs_u _).
   - destruct (slot _ _ _ _) as [[h1 r]|] eqn:S; [|discriminate]. simpl. destruct (recv_unchoke _ _) as [h2|] eqn:R; [|discriminate].
-    destruct (connection_unqueued _ _) as [h3|] eqn:U; [|discriminate]. intros H; inversion H; subst.
-    apply len_cu in U. apply len_recv in R. apply len_slot in S. simpl in *. intuition congruence.
-  - destruct (negb _); [intros H; inversion H; triv_len|]. destruct (connection_unqueued _ _) as [h3|] eqn:U; [|discriminate].
-    intros H; inversion H; subst. apply len_cu in U. simpl in *. auto. Qed.
+    intros U. apply len_cu in U. apply len_recv in R. apply len_slot in S. simpl in *. intuition congruence.
+  - destruct (negb _); [intros H; inversion H; triv_len|]. intros U. apply len_cu in U. simpl in *. auto. Qed.
 Lemma len_set_not_snubbed v c h h' : set_not_snubbed v c h = Ok h' -> length (h_qs h') = length (h_qs h) /\ length (h_ents h') = length (h_ents h).
 Proof. unfold set_not_snubbed. destruct (negb (cs_s _)); [intros H; inversion H; auto|]. destruct (negb (cs_q _)); [intros H; inversion H; triv_len|].
   destruct (cs_u _); [discriminate|]. destruct (connection_queued _ _) eqn:Q; [|discriminate]. intros H.
